@@ -15,7 +15,7 @@ import (
 )
 
 func init() {
-	for _, p := range []string{"C01", "C06", "C13"} {
+	for _, p := range []string{"C01", "C02", "C03", "C06", "C13"} {
 		p := p
 		props[p] = func(seed uint64, tier, dir, replay string) error { return runEnc(p, seed, tier, dir) }
 	}
@@ -164,7 +164,7 @@ func obsJSON(res []obsT) []interface{} {
 }
 
 func runEnc(prop string, seed uint64, tier, dir string) error {
-	runner := map[string]string{"C01": "check01", "C06": "check06", "C13": "check13"}[prop]
+	runner := map[string]string{"C01": "check01", "C02": "check02", "C03": "check03", "C06": "check06", "C13": "check13"}[prop]
 	o := NewOut(dir, prop, 16, "From LOF Require Import Corr.Enc.", runner)
 	rng := NewRng(seed)
 	g := NewG(rng)
